@@ -20,7 +20,8 @@ from lib import Err
 ID = "C19"
 COQ_IMPORTS = "From DV Require Import Model.BTreeM Model.BTreeStoreM."
 COQ_RUN = "BTreeStoreM.run"
-CASE_TIMEOUT = 60.0
+CASE_TIMEOUT = 30.0
+_HANGS = [0]
 TRUSTED = [
     "model: coq/Model/BTreeM.v (value-level _Node/BTree/Cursor algorithms) and coq/Model/BTreeStoreM.v (node store with creator tags) if present",
     "harness/pC19.py reference dictionary (oracle) and node walker",
@@ -209,6 +210,8 @@ class ImplWorld:
             if c == SIN:
                 return int(op[2] in tr)
             return Err(999)
+        except lib.Hang:  # the watchdog of the runner, not an exception of the implementation
+            raise
         except Exception as e:  # noqa
             return exc_code(e)
 
@@ -435,6 +438,10 @@ def oracle(ctx, kind, case, out):
         return []
     n = len(case)
     if isinstance(out, Err) and out.code == -2:
+        global CASE_TIMEOUT
+        _HANGS[0] += 1
+        if _HANGS[0] >= 3:
+            CASE_TIMEOUT = 2.0  # do not spend the budget on more hanging histories
         return []  # lib reports the hang itself
     try:
         return lib.with_watchdog(check_history, case, 1 if n < 400 else 7, seconds=CASE_TIMEOUT)
@@ -675,7 +682,7 @@ def bfs_states(t, nkeys, in_order_modes=(0, 1), max_states=None):
     frontier = [start]
     t0 = time.time()
     if max_states is None:
-        max_states = 600  # the unchanged code reaches 71 structures with 6 keys
+        max_states = {6: 150, 7: 330}.get(nkeys, 600)  # the unchanged code reaches 71 / 158 structures with 6 / 7 keys
     while frontier:
         if time.time() - t0 > 60:
             break
@@ -688,7 +695,13 @@ def bfs_states(t, nkeys, in_order_modes=(0, 1), max_states=None):
                     try:
                         tr = lib.with_watchdog(replay, path + [op], seconds=5.0)
                         d = repr(dump_node(tr.root))
-                    except (Exception, lib.Hang):  # noqa - the history is still emitted; the oracle reports it
+                    except lib.Hang:
+                        states["crash:" + repr(path + [op])] = path + [op]
+                        _HANGS[0] += 1
+                        if _HANGS[0] >= 3:  # the implementation loops: a few histories suffice for the report
+                            return states
+                        continue
+                    except Exception:  # noqa - the history is still emitted; the oracle reports it
                         states["crash:" + repr(path + [op])] = path + [op]
                         continue
                     if d not in states:
@@ -712,6 +725,8 @@ def exhaustive_cases(ctx, t, nkeys, max_states=None, cursor_walks=True, light=Fa
         # every single operation from this structure, each on its own clone of the history
         for k in range(-1, nkeys + 1):
             ops = ([INS, 0, k, 100 + k, 0], [INS, 0, k, 100 + k, 1], [DEL, 0, k], [DELX, 0, k, k + 1], [DELX, 0, k, 999], [GET, 0, k])
+            if ctx.tier == "quick" and not light:
+                ops = ops[:3] + ((ops[3], ops[5]) if k % 2 else (ops[4],))
             if light:
                 ops = ([INS, 0, k, 100 + k, rng.randrange(2)], [DEL, 0, k] if rng.random() < 0.7 else [DELX, 0, k, k + 1])
             for op in ops:
